@@ -181,13 +181,28 @@ func SplitConstOffset(v ssa.Value) (ssa.Value, int64) {
 // WalkExpr visits v and the values it is computed from (through arithmetic, conversions,
 // extractions, phis and call arguments), depth-bounded, calling f on each.
 func WalkExpr(v ssa.Value, f func(ssa.Value) bool) {
-	seen := map[ssa.Value]bool{}
-	var rec func(v ssa.Value, d int)
-	rec = func(v ssa.Value, d int) {
-		if v == nil || seen[v] || d > 12 {
+	type sk struct {
+		v   ssa.Value
+		ctx *ssa.Call
+	}
+	seen := map[sk]bool{}
+	// ctx: the call through which the walk descended into the current transparent helper (its parameters then stand for
+	// that call's arguments only, not for those of the helper's other call sites)
+	var recC func(v ssa.Value, d int, ctx []*ssa.Call)
+	var curCtx []*ssa.Call
+	rec := func(v ssa.Value, d int) { recC(v, d, curCtx) }
+	recC = func(v ssa.Value, d int, ctx []*ssa.Call) {
+		var top *ssa.Call
+		if len(ctx) > 0 {
+			top = ctx[len(ctx)-1]
+		}
+		if v == nil || seen[sk{v, top}] || d > 12 {
 			return
 		}
-		seen[v] = true
+		seen[sk{v, top}] = true
+		saved := curCtx
+		curCtx = ctx
+		defer func() { curCtx = saved }()
 		if !f(v) {
 			return
 		}
@@ -222,19 +237,36 @@ func WalkExpr(v ssa.Value, f func(ssa.Value) bool) {
 			rec(x.X, d+1)
 		case *ssa.Extract:
 			if cl, ok := x.Tuple.(*ssa.Call); ok {
-				if g := TransparentCallee(cl); g != nil {
-					for _, r := range returnsOf(g) {
-						if x.Index < len(r.Results) {
-							rec(r.Results[x.Index], d+1)
+				if g := TransparentCallee(cl); g != nil && len(ctx) < maxInlineDepth {
+					if !seen[sk{cl, top}] {
+						seen[sk{cl, top}] = true
+						if !f(cl) { // the call itself is part of the expression
+							return
 						}
 					}
+					for _, r := range returnsOf(g) {
+						if x.Index < len(r.Results) {
+							recC(r.Results[x.Index], d+1, append(append([]*ssa.Call{}, ctx...), cl))
+						}
+					}
+					// the helper's results were followed inside it; its arguments matter only through its parameters
+					return
 				}
 			}
 			rec(x.Tuple, d+1)
 		case *ssa.Parameter:
-			// parameter of a transparent helper: the arguments of its call sites
+			// parameter of a transparent helper: the argument of the call the walk came through, or (no context) the
+			// arguments of all its call sites
+			if top != nil && TransparentCallee(top) == x.Parent() {
+				for pi, pp := range x.Parent().Params {
+					if pp == x && pi < len(top.Common().Args) {
+						recC(top.Common().Args[pi], d+1, ctx[:len(ctx)-1])
+					}
+				}
+				return
+			}
 			for _, a := range transparentArgs(x) {
-				rec(a, d+1)
+				recC(a, d+1, nil)
 			}
 		case *ssa.FreeVar:
 			// captured variable of a function literal: the binding at its creation
@@ -246,11 +278,16 @@ func WalkExpr(v ssa.Value, f func(ssa.Value) bool) {
 				rec(e, d+1)
 			}
 		case *ssa.Call:
-			if g := TransparentCallee(x); g != nil {
+			if g := TransparentCallee(x); g != nil && len(ctx) < maxInlineDepth {
+				single := false
 				for _, r := range returnsOf(g) {
 					if len(r.Results) == 1 {
-						rec(r.Results[0], d+1)
+						single = true
+						recC(r.Results[0], d+1, append(append([]*ssa.Call{}, ctx...), x))
 					}
+				}
+				if single {
+					return
 				}
 			}
 			for _, a := range x.Common().Args {
@@ -311,7 +348,7 @@ func WalkExpr(v ssa.Value, f func(ssa.Value) bool) {
 			}
 		}
 	}
-	rec(v, 0)
+	recC(v, 0, nil)
 }
 
 // CallsIn returns the calls (by callee key) that v's expression tree contains.
